@@ -472,3 +472,35 @@ def unit_choice_init():
                 "assumptions": ["A-TOK: tokenize_without_space(rule) delivers a finite token list ending in one ENDMARKER, or raises InterfaceError for untokenizable text (G-1)",
                                 "_tools.token_text / is_comma_token / is_eof_token are executed as real code (inlined)"]}
     return ProofUnit("fields.ChoiceFieldFormat.__init__", "ChoiceFieldFormat.__init__: choices = values at even token positions, commas between, no trailing comma (token-level loop invariant)", ["C02", "C09", "C10"], make, None)
+
+
+def unit_constant_init():
+    T2 = sort_of(TOK); ttype = T2.accessor(0, 0); ttext = T2.accessor(0, 1)
+    def tt(t): return z3.If(ttype(t) == TK.STRING, z3.SubString(ttext(t), 1, z3.Length(ttext(t)) - 2), ttext(t))
+    def setup(ex, st):
+        T, c = fresh(UFList(TOK), "T"); st.pc.extend(c)
+        n = fresh(INT, "n")[0]; st.pc.append(n.z >= 0); st.pc.append(T.length == n.z + 1); st.pc.append(ttype(T.at(n.z)) == TK.ENDMARKER)
+        j = z3.Int("j"); st.pc.append(z3.ForAll([j], z3.Implies(z3.And(0 <= j, j < n.z), ttype(T.at(j)) != TK.ENDMARKER)))
+        rule = fresh(STR, "rule")[0]; ae = fresh(BOOL, "allowed_empty")[0]
+        st.pc.append(z3.Implies(rule.z == "", n.z == 0))        # A-TOK: the empty text has no token but the end marker
+        self = _field_init_env(ex, st, "ConstantFieldFormat", rule, ae)
+        st.ghost.update({"T": T, "n": n, "rule": rule, "this": self, "ae": ae, "started": False, "tok_failed": False})
+    def m_range(ex, st, info, args, kw):
+        r = Ref("Range"); st.heap[r.oid] = {"_items": None}; yield st, r
+    def constant(ex, st):
+        T = st.ghost["T"]; return Sym(STR, z3.If(G(st, "n") == 0, z3.StringVal(""), tt(T.at(0))))
+    def length_accepts(ex, st, k): return Sym(BOOL, ex.absfun_s("length_accepts", [z3.IntSort()], z3.BoolSort())(lift(k).z))
+    def make(ctx):
+        m_tokenize, tok_next = _tok_models()
+        good = "n <= 1 and (ae == (rule == '')) and length_accepts(len(constant()))"
+        c = Contract("fields.ConstantFieldFormat.__init__", setup,
+                returns=[Clause(good, "accepted-only-a-single-token-rule-whose-length-fits-and-an-empty-rule-exactly-for-a-field-that-may-be-empty", props=["C02", "C09"]),
+                         Clause("this._constant == constant()", "the-constant-is-the-rule's-single-value-(quoted-value-without-its-quotes)", props=["C02"])],
+                raises={"InterfaceError": [Clause(lambda ex, st: Sym(BOOL, z3.Or(z3.BoolVal(bool(st.ghost["tok_failed"])), z3.Not(ex.spec(good, st).z))), "refused-only-if-the-rule-is-not-such-a-constant", props=["C02", "C09"])]},
+                expect=["return", "InterfaceError"], raises_only_props=["C02", "C10"])
+        return {"contract": c, "callees": {"_tools.tokenize_without_space": ModelContract(m_tokenize), "ref:TokenIter.__next__": tok_next, "class:Range": m_range,
+                                           "ref:Range.validate": m_range_validate_pred("length_accepts")},
+                "spec_functions": {"constant": constant, "length_accepts": length_accepts},
+                "assumptions": ["A-TOK: tokenize_without_space(rule) delivers a finite token list ending in one ENDMARKER (only the ENDMARKER for the empty text), or raises InterfaceError for untokenizable text (G-1)",
+                                "Range.validate is used through its verified contract (contracts/ranges.py) as the predicate length_accepts"]}
+    return ProofUnit("fields.ConstantFieldFormat.__init__", "ConstantFieldFormat.__init__: the constant is the single token of the rule; empty rule iff the field may be empty; the length must admit it", ["C02", "C09", "C10"], make, None)
